@@ -92,6 +92,10 @@ func registerVerifModels(e *Engine) {
 		}
 		return nil
 	})
+	own("verifThread", func(fr *frame, fn *ssa.Function, args []value) value {
+		fr.p.thread = int(fr.concreteInt(args[0]))
+		return nil
+	})
 	own("verifBound", func(fr *frame, fn *ssa.Function, args []value) value { return nil })
 	own("nondetString", func(fr *frame, fn *ssa.Function, args []value) value {
 		class := fr.concreteString(args[0])
